@@ -222,6 +222,37 @@ theorem C03_parse_events_no_panic_partial (cs : CharSpec) (ext : Ext) (input : L
   · simp only [Prod.mk.injEq] at heq
     rw [← heq.1]; exact hwf 0 _
 
+/-- the metadata-only scanner (`next_metadata_block`): `BlockParser::new` + `metadata_entry` +
+    `finish` on a `>>` line never panics (in particular `finish` is only called after
+    `consume_rest`) -/
+theorem C03_meta_block_no_panic (cs : CharSpec) (ext : Ext) (off : Nat) (b : List Tok)
+    (evs : Array (Ev α)) (hch : Chain off b) (he : EscapedOK b) (hne : b ≠ []) :
+    (runMetaBlock cs ext b evs none).2 = none :=
+  runMetaBlock_no_panic cs ext b evs (WF.of_chain hch he hne)
+
+/-- **C03, metadata-only pull parser (`into_meta_iter`), complete:** for EVERY input, `CharSpec`
+    and extension set no panic site of the scanner or of the block parser is reached (the `>>`
+    lines the scanner cuts out are proved to be non-empty runs of adjacent tokens). -/
+theorem C03_parse_meta_events_no_panic (cs : CharSpec) (ext : Ext) (input : List Char) :
+    (pullMetaEvents (α := α) cs ext input).2 = none := pullMetaEvents_no_panic cs ext input
+
+/-- hence the panic flag of `parse_metadata` can only come from the analysis pass: the second
+    half of `C03_statement` is reduced to "`parseEvents` does not panic" -/
+theorem C03_parse_metadata_panic_only_from_analysis (env : Env) (input : Str) :
+    (parseMetadata (α := α) env input).panic =
+      (parseEvents (α := α) env input (pullMetaEvents (α := α) env.cs env.ext input).1.toList).panic := by
+  unfold parseMetadata
+  simp only [pullMetaEvents_no_panic]
+
+/-- the same reduction for `parse` (first half of `C03_statement`), given block adjacency -/
+theorem C03_parse_recipe_panic_only_from_analysis_partial (env : Env) (input : Str)
+    (hadj : ∀ (off : Nat) (s : List Char),
+      ∀ b ∈ allBlocks ((lexFrom env.cs off s).length + 1) (lexFrom env.cs off s), ∃ o, Chain o b) :
+    (parseRecipe (α := α) env input).panic =
+      (parseEvents (α := α) env input (pullEvents (α := α) env.cs env.ext input).1.toList).panic := by
+  unfold parseRecipe
+  simp only [C03_parse_events_no_panic_partial env.cs env.ext input hadj]
+
 end blockParser
 
 /-! non-vacuity: the tokens of `@a{1}` satisfy the hypotheses of `C03_block_no_panic` -/
